@@ -1,5 +1,5 @@
 """C03 - ZINC reader accepts the whole surface syntax and decodes it correctly."""
-from .. import gen, model, zinc_ref
+from .. import gen, model, rt, zinc_ref
 from ..core import Acc, Violation, guarded, run_hypothesis, shard_seed
 
 PROPERTY = 'C03'
@@ -62,7 +62,7 @@ def check_doc(case, acc=None):
         for k in plan.used:
             acc.label('spelling:' + k)
     tags = ('crlf' if case.get('eol') == '\r\n' else 'lf', 'nl' if case.get('final_nl', True) else 'no-final-nl')
-    got = guarded('parse-raises', dict(case, text=txt), hszinc.parse, inp, mode=hszinc.MODE_ZINC, single=single, **kw)
+    got = guarded('parse-raises', dict(case, text=txt), hszinc.parse, inp, single=single, **dict(kw, **rt.mode_kw('zinc', len(txt))))
     if single:
         if not ms:
             if got is not None:
@@ -96,7 +96,7 @@ def check_scalar(case, acc=None):
     if acc is not None:
         for k in plan.used:
             acc.label('spelling:' + k)
-    got = guarded('parse-raises', dict(case, text=txt), hszinc.parse_scalar, txt, mode=hszinc.MODE_ZINC, version=ver)
+    got = guarded('parse-raises', dict(case, text=txt), hszinc.parse_scalar, txt, version=ver, **rt.mode_kw('zinc', len(txt)))
     d = model.diff(model.normalise(m), model.to_model(got))
     if d:
         raise Violation('decoded-other-value', dict(case, text=txt), '%s | text=%r' % (d, txt[:300]), (m[0],))
@@ -140,10 +140,10 @@ def check_zone_sequence(case):
     wants = [want(*x) for x in seq]
     if case['as'] == 'cells':
         txt = 'ver:"%s" first:%s\nts,n\n' % (ver, toks[0]) + ''.join('%s,%d\n' % (t, i) for i, t in enumerate(toks))
-        g = guarded('parse-raises', dict(case, text=txt), hszinc.parse, txt, mode=hszinc.MODE_ZINC, single=True)
+        g = guarded('parse-raises', dict(case, text=txt), hszinc.parse, txt, single=True, **rt.mode_kw('zinc', len(txt)))
         got = [model.to_model(r['ts']) for r in g]
     else:
-        got = [model.to_model(guarded('parse-raises', dict(case, text=t), hszinc.parse_scalar, t, mode=hszinc.MODE_ZINC, version=ver)) for t in toks]
+        got = [model.to_model(guarded('parse-raises', dict(case, text=t), hszinc.parse_scalar, t, version=ver, **rt.mode_kw('zinc', len(t)))) for t in toks]
     for i, (w, b, t) in enumerate(zip(wants, got, toks)):
         d = model.diff(w, b, dt_by_instant=True)
         if d:
